@@ -12,6 +12,13 @@ Check (C13_exactly_one :
     quiescent (fst (fst res)) ->
     In (OSent r) (snd res) ->
     terms r (snd res) = 1%nat \/ In r (cancel_reqs evs)).
+Check (C13_exactly_one_contract :
+  forall (cf : cfg) (evs : list ev) (r : N),
+    0 < tmo cf ->
+    let res := run cf (init_pst, init_env) evs in
+    discharged (grun cf g0 (run_steps cf (init_pst, init_env) evs)) ->
+    In (OSent r) (snd res) ->
+    terms r (snd res) = 1%nat \/ In r (cancel_reqs evs)).
 Check (C13_exactly_one_settled :
   forall (cf : cfg) (evs : list ev) (r : N),
     let res := run cf (init_pst, init_env) evs in
@@ -36,13 +43,34 @@ Check (C13_payload :
       In (OBind c rid) (outs_of pre) /\
       (forall rid', In (OBind c rid') (outs_of (run_steps cf (init_pst, init_env) evs)) -> rid' = rid) /\
       (forall c', In (OBind c' rid) (outs_of (run_steps cf (init_pst, init_env) evs)) -> c' = c)).
+Check (C13_request_wire :
+  forall (cf : cfg) (evs : list ev) pre p d (len tag : N) fb o tg post (rid c l t : N),
+    run_steps cf (init_pst, init_env) evs = pre ++ (ESend p d len tag fb, o, tg) :: post ->
+    In (OSent rid) o ->
+    In (OBind c rid) (outs_of (run_steps cf (init_pst, init_env) evs)) ->
+    In (OWire c l t) (outs_of (run_steps cf (init_pst, init_env) evs)) ->
+    (l, t) = (len, tag) \/ exists n fl ft, fb = Some (n, fl, ft) /\ (l, t) = (fl, ft)).
+Check (C13_feedback :
+  forall (cf : cfg) (evs : list ev) e o tg (irid : N),
+    In (e, o, tg) (run_steps cf (init_pst, init_env) evs) -> In (OFeed irid true) o ->
+    exists c l t, In (OWireR c l t) o).
 Check (C13_responder_once :
   forall (cf : cfg) (evs : list ev),
     let steps := run_steps cf (init_pst, init_env) evs in
     NoDup (req_chans steps) /\
     forall e o tg irid p len tag,
       In (e, o, tg) steps -> In (OReq irid p len tag) o ->
-      exists k c, e = EInReq k len tag /\ tg = Some c /\ o = [OReq irid p len tag]).
+      exists k c rest, e = EInReq k len tag /\ tg = Some c /\ o = OReq irid p len tag :: rest /\ has_req rest = false).
+Check (C13_channel_nothing_lost :
+  forall (cap : nat) (o : list out) (ms : list rmove),
+    let st := relay_run cap o ms in
+    rl_delivered st ++ rl_queue st ++ rl_pending st = o /\ (length (rl_queue st) <= cap)%nat).
+Check (C13_dial_refused_one_failure :
+  forall (s : pst) (p len tag : N) fb (ok : bool) (sid : N),
+    memN p (peers s) = false ->
+    snd (h_send s p true len tag fb ok false sid) = [OSent (next_rid s); OFail (next_rid s) E_DIAL_IMMEDIATE] /\
+    dials (fst (h_send s p true len tag fb ok false sid)) = dials s /\
+    active (fst (h_send s p true len tag fb ok false sid)) = active s).
 Check (C13_unrepaired_refuted :
   exists s o,
     (let '(s1, o1) := h_send_unrepaired init_pst 0 true 3 10 false true 0 in
